@@ -353,6 +353,7 @@ void  vp_copy(const void* first, const void* last, void* out);
 /* std::partial_sum(a.rbegin(), a.rend()-1, out, std::multiplies<uint64_t>()) on an array a of n elements */
 void  vp_partial_product_reverse(const uint64_t* a, size_t n, uint64_t* out);
 void  vp_reverse_u64(uint64_t* first, uint64_t* last);
+bool  vp_equal_u64(const uint64_t* first, const uint64_t* last, const uint64_t* other);   /* std::equal */
 '''
 
 def permute_function():
@@ -370,6 +371,7 @@ def permute_function():
     body = r.sub("R15_new_array", r"=\s*new double\[(.*?)\];", r"= (double*)vp_new(sizeof(double), \1);", body, must_fire=True)
     body = r.sub("R16_partial_sum", r"std::partial_sum\(t_naxes\.rbegin\(\),\s*t_naxes\.rend\(\)-1,\s*t_strides\.get\(\)\+1,\s*std::multiplies<uint64_t>\(\)\);", "vp_partial_product_reverse(t_naxes, ndim, t_strides + 1);", body, must_fire=True)
     body = r.sub("R16_reverse", r"std::reverse\(", "vp_reverse_u64(", body, must_fire=True)
+    body = r.sub("R16_equal", r"std::equal\(", "vp_equal_u64(", body)
     body = r.sub("R18_begin_end", r"t_naxes\.begin\(\),\s*t_naxes\.end\(\)", "t_naxes, t_naxes + ndim", body, must_fire=True)
     body = r.sub("R15_get", r"\.get\(\)", "", body, must_fire=True)
     body = r.sub("R16_copy", r"std::copy\(", "vp_copy(", body, must_fire=True)
